@@ -12,6 +12,11 @@ def hook_commits():
         return []
 
 CHECKS = {
+ "C06": dict(
+    category="exploration", design_ref="DESIGN.md §4 C06",
+    technique="reference-model monitor + metamorphic arrangement check: every Mux.GetHandler result diffed against a brute-force most-specific-match router over bounded-exhaustive and random pattern sets in 7 Mount/Route arrangements",
+    text="Builds the real Mux for every set of <=2 (quick) / <=3 (thorough) patterns of <=3 tokens over {a,b,$x,$y,*,>} in 7 arrangements (flat, service path, Mount with empty/own path, Route, registration through a parent below a mounted child, mount-then-handle) and looks up every name of <=4 tokens over {a,b,c}; plus seeded random sets (<=12 patterns, <=6 tokens, group templates, listeners, nested random arrangements) and hostile lookup strings. Handler identity, listeners, params and group are compared with a brute-force reference; registration conflicts must be rejected. Held on the enumerated domain and samples only.",
+    note="Trusts the reference router (harness/internal/ref/router.go); for strings that are not valid resource names only absence of panics is asserted; listener-only patterns are not looked up."),
  "C17": dict(
     category="exploration", design_ref="DESIGN.md §4 C17",
     technique="reference-model monitor: every exported pattern/validator call diffed against a tokenising reference (bounded-exhaustive + seeded random inputs)",
